@@ -81,6 +81,11 @@ var treeConfigs = []struct{ dir, cleanDir, ext string }{
 	{"views/nested", "views/nested", ".tw.html"},
 	{"tpl/", "tpl", ".html"},
 	{"./tpl", "tpl", ".tw"},
+	// dots at either end of a directory name, and a spelling that needs cleaning
+	{"v1.", "v1.", ".tw"},
+	{".hid/tpl.", ".hid/tpl.", ".tw.html"},
+	{"./tpl.d/", "tpl.d", ".html"},
+	{"tpl/../tpl", "tpl", ".tw"},
 }
 
 // dataVariants gives a few data maps for one generated tree
